@@ -260,3 +260,23 @@ ADDENDA4 = {
 }
 for _p, _t in ADDENDA4.items():
     CLAIMED[_p]['text'] = CLAIMED[_p]['text'].rstrip() + ' ' + _t
+
+ADDENDA5 = {
+    'C03': "(P, extended) the scaler list is fresh for every call (no mutable default argument that is written); no whole-tensor reduction decides for all sites and samples whether a node is "
+           "rescaled (C10.D machinery on tree_likelihood.py); (G, extended) the literal default a from_json uses for an option equals the default of the constructor parameter it feeds.",
+    'C05': "(H, extended) the MCMC operators that move shape / invariant / mu tell the listeners (C11.W rules, including Parameter.copy_ through loop variables over self.parameters).",
+    'C06': "(S, extended) the inverse of the difference transform distinguishes the regimes (hard / smooth maximum) its constructor chooses for the forward map; (F, extended) no zip of a "
+           "sorted key list of a dictionary with that dictionary's values(); (H, refined) stores made by methods called inside a flag-guarded block count as refreshed there.",
+    'C08': "(M) C11.M memo-key rules on coalescent.py (dependencies followed through self.method() into the subclasses' implementations) and no instance method writes a container created in "
+           "the class body.",
+    'C11': "(H, extended) Parametric.register_parameter / register_model add the listener on every path; (M, extended) plain `if self.C is None` memos over parameter tensors, dependencies "
+           "through self.method(), containers created in a class body and written by instance methods (package-wide); (S, refined) as C06.H; (W, extended) Parameter.copy_ on loop variables.",
+    'C13': "(F, extended) JSON option defaults equal constructor defaults (package-wide, 17 options).",
+    'C15': "(Q, extended) no proposal is redrawn inside a while loop until it passes a test (state-dependent truncation without its normaliser); the GMRF block update reads the current "
+           "precision matrix before it stores the proposal (C20.H); (R, extended) loggers keep no view of a live tensor across calls.",
+    'C18': "(W, extended) the checkpoint path is handed to the atomic writer only (not to a Dumper or another component that writes it its own way); the writer is called, never handed to a "
+           "thread / executor as a callable (the protocol is decided for one writer at a time).",
+    'C20': "(H) the block-update operator reads precision_matrix() of the current state before `gmrf.precision.tensor = proposal` and of the proposed state after it (CFG dominance).",
+}
+for _p, _t in ADDENDA5.items():
+    CLAIMED[_p]['text'] = CLAIMED[_p]['text'].rstrip() + ' ' + _t
